@@ -385,6 +385,32 @@ pub fn cases(prop: &str, tier: &str, ctx: &mut Ctx, rng: &mut Rng) {
                     ctx.push_reg(&format!("corpus:{n}"), reg, Some(rj), &spec);
                 }
             }
+            if prop == "C07" || prop == "C16" {
+                // every generic item path of the corpus substituted, with source parameters named
+                // in the user's style and in the generator's own `_i` style, identity and reversed
+                for (n, rj, reg) in &corp {
+                    for p in item_paths(reg) {
+                        let np = reg.types.iter().find(|t| t.ty.path.segments == p)
+                            .map(|t| t.ty.type_params.iter().filter(|q| q.ty.is_some()).count()).unwrap_or(0);
+                        if np == 0 || np > 4 || reg.types.len() > 60 {
+                            continue;
+                        }
+                        for style in 0..2 {
+                            let names: Vec<String> = (0..np).map(|i| if style == 0 { format!("_{i}") } else { ["A", "B", "C", "D"][i].to_string() }).collect();
+                            let mut rev = names.clone();
+                            rev.reverse();
+                            for tgt_args in [names.clone(), rev] {
+                                let mut s = base_spec(reg);
+                                s.ops.push(OpSpec::SubInsert(
+                                    format!("{}<{}>", p.join("::"), names.join(", ")),
+                                    format!("::ext::Sub<{}>", tgt_args.join(", ")),
+                                ));
+                                ctx.push_reg(&format!("corpus-subst:{n}"), reg, Some(rj), &s);
+                            }
+                        }
+                    }
+                }
+            }
             if prop == "C08" || prop == "C16" {
                 // every item path of the corpus as a recursive root, alone and with a second root
                 for (n, rj, reg) in &corp {
